@@ -21,8 +21,8 @@ CFG = {
                   "(changed cell = origin+offset, inside the window, every ancestor and the screen; else unchanged), "
                   "drawops_clip and its instances for Fill/Clear/Print/PrintTruncate/Println/Wrap, fill_covers, "
                   "screen_index_ok (no index panic), print_is_layout / println_is_layout / printTruncate_is_layout / "
-                  "wrap_is_layout (the SetCell calls are the reading-order layout of the spec), layout_strict_order, "
-                  "layout_one_call_per_cluster.",
+                  "wrap_is_layout (the SetCell calls are the reading-order layout of the spec), print_order / wrap_order "
+                  "(strictly increasing reading order), layout_one_call_per_cluster, new_region.",
     "level_note": "Model tied to the source by Gen/WindowFacts.lean (guards, clamp switch, tab count, re-measure sites; "
                   "theorems facts_* fail to compile when window.go/screen.go/character.go change shape) and by the "
                   "correspondence run through real Window values on a real Vaxis (fake console). Validated by "
